@@ -168,3 +168,119 @@ def panic_calls(s):
 
 def subexprs(e, pred):
     return [x for x in walk(e) if pred(x)]
+
+
+def for_loops(s):
+    """`for x in ITER` loops of a summary: header, blocks, source expression, element expression"""
+    out = []
+    cfg = s.cfg
+    for h, blocks in cfg.loops().items():
+        nxt = [c for c in s.calls if c['blk'] in blocks and c['callee'] and c['callee'].endswith('::next')
+               and c['argvals'] and c['argvals'][0][0] == 'loop' and c['argvals'][0][1] == h]
+        if not nxt:
+            continue
+        c = nxt[0]
+        root = c['argvals'][0][2]
+        pre = [p for p in cfg.pred[h] if p in cfg.nodes and p not in blocks]
+        src = None
+        if len(pre) == 1 and pre[0] in s.exit:
+            v = s.exit[pre[0]].get(root)
+            if v is not None and v[0] == 'call' and v[1].endswith('::into_iter') and v[2]:
+                src = v[2][0]
+            elif v is not None:
+                src = v
+        elem = ('field', ('variant', c['result'], 'Some'), '0')
+        out.append(dict(header=h, blocks=blocks, source=src, elem=elem, next=c, pre=pre[0] if len(pre) == 1 else None,
+                        iter_root=root))
+    return out
+
+
+def enum_paths(s, start, stop_blocks, limit=20000):
+    """all acyclic paths from block `start` to any block of stop_blocks (exclusive), as lists of
+    (block, taken successor). Loops are not entered (edges into loop headers other than stop are cut)."""
+    cfg = s.cfg
+    out = []
+    stop = set(stop_blocks)
+
+    def rec(b, path, seen):
+        if len(out) > limit:
+            return
+        if b in stop:
+            out.append(list(path))
+            return
+        succs = [x for x in cfg.succ[b] if x in cfg.nodes]
+        if not succs:
+            out.append(list(path) + [(b, None)])
+            return
+        for x in dict.fromkeys(succs):
+            if x in seen:
+                continue
+            path.append((b, x))
+            rec(x, path, seen | {x})
+            path.pop()
+
+    rec(start, [], {start})
+    return out
+
+
+def eval_tree(e, decide):
+    """walk an ite tree; decide(cond, cases) -> the chosen case value (int | 'otherwise') or None to explore all.
+    Returns the set of reachable leaves."""
+    out = []
+
+    def rec(x):
+        if isinstance(x, tuple) and x and x[0] == 'ite':
+            vals = [v for v, _ in x[2]]
+            ch = decide(x[1], vals)
+            if ch is None:
+                for _, sub in x[2]:
+                    rec(sub)
+            else:
+                for v, sub in x[2]:
+                    if v == ch:
+                        rec(sub)
+                        return
+                for v, sub in x[2]:
+                    if v == 'otherwise':
+                        rec(sub)
+                        return
+        else:
+            out.append(x)
+
+    rec(e)
+    return out
+
+
+def as_bool(ch, vals):
+    """map a python bool onto the case value of a two-way switch"""
+    if set(vals) == {0, 'otherwise'}:
+        return 'otherwise' if ch else 0
+    if set(vals) == {1, 'otherwise'}:
+        return 1 if ch else 'otherwise'
+    if set(vals) == {0, 1}:
+        return 1 if ch else 0
+    return None
+
+
+def loop_latch_value(s, loop, root):
+    """value of `root` when control returns to the loop header (merged over back edges)"""
+    cfg = s.cfg
+    h = loop['header']
+    vals = []
+    for (a, b) in cfg.back_edges():
+        if b == h and a in s.exit:
+            vals.append(s.exit[a].get(root))
+    vals = [v for v in vals if v is not None]
+    if len(vals) == 1:
+        return vals[0]
+    return None
+
+
+def count_after(e, callee_suffix):
+    """number of nested ('after', _, callee, ...) wrappers whose callee ends with the suffix"""
+    n = 0
+    while isinstance(e, tuple) and e and e[0] == 'after':
+        if e[2].endswith(callee_suffix):
+            n += 1
+        e = e[3]
+    return n, e
